@@ -257,7 +257,11 @@ func ulpDist(a, b float64) float64 {
 	if ib < 0 {
 		ib = math.MinInt64 - ib
 	}
-	return math.Abs(float64(ia) - float64(ib))
+	d := ia - ib // same sign region after the mapping above; exact in int64
+	if d < 0 {
+		d = -d
+	}
+	return float64(d)
 }
 
 // ---- composite values: delimiters are free, element order matters for arrays, not for objects
